@@ -15,6 +15,7 @@ import json
 import os
 import subprocess
 import sys
+import time
 
 sys.path.insert(0, os.path.join(os.path.dirname(os.path.abspath(__file__)), "..", "lib"))
 import vlib
@@ -22,7 +23,7 @@ import wildrun
 
 CARRIERS = ["obj", "ar", "thin", "script-input", "script-T", "version-script", "export-list",
             "lib", "so"]
-BATCH = 48
+BATCH = 24
 
 
 def fn_src(name, ref=None, plt=False):
@@ -287,9 +288,11 @@ def judge(m, indir, target, deptext, rules):
 def run_batch(job):
     """Link every member of the batch in this worker's wild server, read all dependency files with
     one make run, judge. Returns list of (member id, status, findings, deptext or '')."""
-    indir, members = job
+    indir, members, deadline = job
     linked = []
     results = []
+    if time.time() > deadline:
+        return [(m["id"], "skipped-cap", [], "") for m in members]
     for m in members:
         argv, target, deppath, outpath, _, _ = member_argv(m, indir)
         for p in (deppath, outpath):
@@ -338,12 +341,14 @@ def _ld_link(job):
     return rc, err.decode("utf-8", "replace")[-120:]
 
 
-def gnu_ld_opinion(indir):
+def gnu_ld_opinion(indir, carriers):
     """Which kinds GNU ld's own --dependency-file lists, measured on single-carrier members."""
     lists = {}
     detail = []
     ms = []
     for i, c in enumerate(CARRIERS):
+        if c not in carriers:
+            continue
         for used in (True, False):
             for flavor in (0, 1):
                 ms.append(dict(mask=1 << i, dup=False, abs=False, shared=False, used=used,
@@ -501,12 +506,39 @@ def main():
     with vlib.scratch("c25") as base:
         indir = os.path.join(base, "in")
         build_inputs(indir)
-        ld_lists, ld_detail = gnu_ld_opinion(indir)
+        indir_b = os.path.join(base, "inb")
+        build_inputs(indir_b, BLANK_SUB)
+        blank_opinion = other_linkers_on_blank(indir_b)
+        part_a = [m for m in members if not m["blank"]]
+        part_b = [m for m in members if m["blank"]]
+        # Wall cap for the whole check, enforced here; members not linked by then are reported.
+        deadline = chk.t0 + (840 if chk.thorough else 36)
+        full = (1 << len(CARRIERS)) - 1
+        # Single-carrier and full members first (they matter most if the cap hits).
+        part_a.sort(key=lambda m: (not (bin(m["mask"]).count("1") == 1 or m["mask"] == full),
+                                   m["id"]))
+        jobs = [(indir_b, part_b[i:i + BATCH], deadline) for i in range(0, len(part_b), BATCH)]
+        jobs += [(indir, part_a[i:i + BATCH], deadline) for i in range(0, len(part_a), BATCH)]
+        results = []
+        for rs in wildrun.pmap(run_batch, jobs, chunksize=1):
+            results.extend(rs)
+        # GNU ld's opinion: thorough asks about every carrier, quick only about the carriers of
+        # kinds that were found missing and that the property text does not name.
+        missing_kinds = {k.split(":", 1)[1] for mid, st, finds, _ in results
+                         if st == "ok" and not by_id[mid]["blank"]
+                         for k, _ in finds if k.startswith("missing:")}
+        kind_carrier = {"thin-archive-index": "thin", "archive-unused": "ar",
+                        "lib-search-archive-unused": "lib", "shared-object": "so",
+                        "shared-object-unused": "so", "thin-archive-member": "thin"}
+        ask = set(CARRIERS) if chk.thorough else \
+            {kind_carrier[k] for k in missing_kinds if k not in EXPLICIT and k in kind_carrier}
+        ld_lists, ld_detail = gnu_ld_opinion(indir, ask) if ask else ({}, [])
         # Server and subprocess must write the same dependency file.
         same = 0
         probe = [m for m in members if not m["dup"] and m["used"] and m["flavor"] == 0 and
+                 not m["blank"] and not m["abs"] and
                  (bin(m["mask"]).count("1") == 1 or m["mask"] == (1 << len(CARRIERS)) - 1)]
-        for m in probe[:: max(1, len(probe) // 12)]:
+        for m in probe[:: 1 if chk.thorough else 4]:
             argv, _, deppath, outpath, _, _ = member_argv(m, indir, tag="p")
             rc1, msg = wildrun.server_link(argv, cwd=indir)
             d1 = open(deppath).read() if rc1 == 0 else None
@@ -518,19 +550,11 @@ def main():
                 chk.machinery(f"server and subprocess disagree on {describe(m)}: {rc1} {rc2} "
                               f"{msg[:100]} {err[-100:]}")
             same += 1
-        indir_b = os.path.join(base, "inb")
-        build_inputs(indir_b, BLANK_SUB)
-        blank_opinion = other_linkers_on_blank(indir_b)
-        part_a = [m for m in members if not m["blank"]]
-        part_b = [m for m in members if m["blank"]]
-        jobs = [(indir, part_a[i:i + BATCH]) for i in range(0, len(part_a), BATCH)]
-        jobs += [(indir_b, part_b[i:i + BATCH]) for i in range(0, len(part_b), BATCH)]
-        results = []
-        for rs in wildrun.pmap(run_batch, jobs, chunksize=1):
-            results.extend(rs)
     twin_finds = {twin_key(by_id[mid]): {k for k, _ in finds}
                   for mid, status, finds, _ in results if status == "ok" and
                   not by_id[mid]["blank"]}
+    skipped = sum(1 for r in results if r[1] == "skipped-cap")
+    results = [r for r in results if r[1] != "skipped-cap"]
     link_failed = {}
     judged = 0
     excused = {}
@@ -572,8 +596,8 @@ def main():
             viol_keys[key] = viol_keys.get(key, 0) + 1
             chk.violation(key, f"{what}; member {describe(m)}; dependency file: "
                           f"{deptext.splitlines()[0][:300] if deptext else ''}", replay_doc(m))
-    if judged < len(members) * 0.9:
-        chk.machinery(f"only {judged} of {len(members)} members linked: {link_failed}")
+    if judged < len(results) * 0.9 or judged < 2:
+        chk.machinery(f"only {judged} of {len(results)} members linked: {link_failed}")
     chk.coverage = {
         "evaluations": len(results), "distinct_nontrivial": judged,
         "rule": "one member per (non-empty subset of 9 carriers, once/twice, relative/absolute, "
@@ -581,7 +605,8 @@ def main():
                 "non-trivial = wild linked it and wrote a dependency file that GNU make parsed",
         "members": len(members), "judged": judged, "link_failed": link_failed,
         "distinct_input_shapes": len(shapes),
-        "carriers": CARRIERS, "exhaustive": True,
+        "carriers": CARRIERS, "exhaustive": skipped == 0,
+        "capped": skipped > 0, "members_not_linked_because_of_wall_cap": skipped,
         "thinned": None if chk.thorough else "referenced/unreferenced and flavour variants only "
                    "on the 9 single-carrier members and the full member",
         "gnu_ld_lists_kind": ld_lists, "gnu_ld_detail": ld_detail[:40],
